@@ -341,13 +341,25 @@ theorem countOn_filter_remove (ps : List MPeer) (hnd : (ps.map (·.addr)).Nodup)
       simp only [if_true, List.countP_cons]
       omega
 
-/-- **Every enabled event is handled without panic and preserves the invariant** — for every value of the
-    random piece choice. -/
-theorem step_inv (s : MState) (hinv : Inv s) (ev : Ev) (hen : Enabled s ev) :
+/-- What the invariant needs of `Enabled`: exactly what keeps `mstep` from panicking (plus: a connection is added only
+    for an address without one). Every answered command satisfies it (`enabledW_of_ok`). -/
+def EnabledW (s : MState) : Ev → Prop
+  | .add a _ => findPeer s a = none
+  | .pieceDone a _ => ∃ p y, findPeer s a = some p ∧ p.pieceIndex = some y
+  | .pieceCancel a _ => ∃ p y, findPeer s a = some p ∧ p.pieceIndex = some y
+  | .have a i _ => ∃ p, findPeer s a = some p ∧ i < p.pieces.length
+  | .bitfield a bits _ => ∃ p, findPeer s a = some p ∧ bits.length = p.pieces.length
+  | .kill _ => True
+  | .choke a => ∃ p, findPeer s a = some p
+  | .unchoke a _ => ∃ p, findPeer s a = some p
+  | .interested a => ∃ p, findPeer s a = some p
+  | .notInterested a _ => ∃ p, findPeer s a = some p
+
+theorem step_inv_w (s : MState) (hinv : Inv s) (ev : Ev) (hen : EnabledW s ev) :
     ∃ s' r, mstep s ev = .ok s' r ∧ Inv s' := by
   cases ev with
   | add a n =>
-    obtain ⟨hnone, _⟩ := hen
+    have hnone : findPeer s a = none := hen
     have hne := findPeer_none hnone
     have hfil : s.peers.filter (fun p => decide (p.addr ≠ a)) = s.peers := by
       apply List.filter_eq_self.mpr; intro p hp; simpa using hne p hp
@@ -415,16 +427,14 @@ theorem step_inv (s : MState) (hinv : Inv s) (ev : Ev) (hen : Enabled s ev) :
     obtain ⟨p, hp⟩ := hen
     exact ⟨_, _, by simp only [mstep, hp] <;> rfl, inv_flags s hinv a p { p with interested := false } hp rfl rfl rfl rfl⟩
   | bitfield a bits chosen =>
-    obtain ⟨⟨p, hp⟩, hlen, hpl⟩ := hen
-    rw [hp] at hpl; simp only [Option.some.injEq, forall_eq'] at hpl
-    have hl : ¬ bits.length ≠ p.pieces.length := by rw [hlen, hpl]; simp
+    obtain ⟨p, hp, hlen⟩ := hen
+    have hl : ¬ bits.length ≠ p.pieces.length := by rw [hlen]; simp
     exact ⟨_, _, by simp only [mstep, hp, hl, if_false] <;> rfl,
       inv_flags s hinv a p { p with pieces := bits, amInterested := chosen.isSome } hp rfl rfl rfl rfl⟩
   | «have» a i chosen =>
-    obtain ⟨⟨p, hp⟩, hi, hpl⟩ := hen
-    rw [hp] at hpl; simp only [Option.some.injEq, forall_eq'] at hpl
+    obtain ⟨p, hp, hi⟩ := hen
     obtain ⟨hpm, _⟩ := findPeer_some hp
-    have hl : ¬ i ≥ p.pieces.length := by rw [hpl]; omega
+    have hl : ¬ i ≥ p.pieces.length := by omega
     cases chosen with
     | none =>
       exact ⟨_, _, by simp only [mstep, hp, hl, if_false] <;> rfl,
@@ -444,9 +454,8 @@ theorem step_inv (s : MState) (hinv : Inv s) (ev : Ev) (hen : Enabled s ev) :
       · exact ⟨_, _, by simp only [mstep, hp, hl, if_false, hcond] <;> rfl,
           inv_flags s hinv a p { p with pieces := p.pieces.set i true } hp rfl rfl rfl rfl⟩
   | pieceDone a chosen =>
-    obtain ⟨p, y, hp, hrx⟩ := hen
+    obtain ⟨p, y, hp, hpi⟩ := hen
     obtain ⟨hpm, _⟩ := findPeer_some hp
-    have hpi := hinv.rxIdx p hpm y hrx
     refine ⟨_, _, by simp only [mstep, hp, hpi] <;> rfl, ?_⟩
     -- first the piece is marked owned and the assignment dropped ...
     let p1 : MPeer := { p with pieceIndex := none, rx := none }
@@ -482,9 +491,8 @@ theorem step_inv (s : MState) (hinv : Inv s) (ev : Ev) (hen : Enabled s ev) :
       unfold handlePiece; cases chosen <;> simp [p1]
     rw [← hsame] at h2; exact h2
   | pieceCancel a chosen =>
-    obtain ⟨p, y, hp, hrx, _⟩ := hen
+    obtain ⟨p, y, hp, hpi⟩ := hen
     obtain ⟨hpm, _⟩ := findPeer_some hp
-    have hpi := hinv.rxIdx p hpm y hrx
     refine ⟨_, _, by simp only [mstep, hp, hpi] <;> rfl, ?_⟩
     let p1 : MPeer := { p with pieceIndex := none, rx := none }
     let st1 := modifyAt s.statuses y decr
@@ -551,6 +559,85 @@ theorem step_inv (s : MState) (hinv : Inv s) (ev : Ev) (hen : Enabled s ev) :
             rw [hd] at hc
             simp only [Bool.false_and, b2n, Bool.false_eq_true, if_false, Nat.add_zero] at hc; omega
 
+theorem enabled_weak (s : MState) (hinv : Inv s) (ev : Ev) (hen : Enabled s ev) : EnabledW s ev := by
+  cases ev with
+  | add a n => exact hen.1
+  | choke a => exact hen
+  | unchoke a c => exact hen
+  | interested a => exact hen
+  | notInterested a c => exact hen
+  | kill a => trivial
+  | bitfield a bits c =>
+    obtain ⟨⟨p, hp⟩, hlen, hpl⟩ := hen
+    exact ⟨p, hp, by rw [hlen, hpl p hp]⟩
+  | «have» a i c =>
+    obtain ⟨⟨p, hp⟩, hi, hpl⟩ := hen
+    exact ⟨p, hp, by rw [hpl p hp]; exact hi⟩
+  | pieceDone a c =>
+    obtain ⟨p, y, hp, hrx⟩ := hen
+    exact ⟨p, y, hp, hinv.rxIdx p (findPeer_some hp).1 y hrx⟩
+  | pieceCancel a c =>
+    obtain ⟨p, y, hp, hrx, _⟩ := hen
+    exact ⟨p, y, hp, hinv.rxIdx p (findPeer_some hp).1 y hrx⟩
+
+/-- **Every enabled event is handled without panic and preserves the invariant** — for every value of the
+    random piece choice. -/
+theorem step_inv (s : MState) (hinv : Inv s) (ev : Ev) (hen : Enabled s ev) :
+    ∃ s' r, mstep s ev = .ok s' r ∧ Inv s' :=
+  step_inv_w s hinv ev (enabled_weak s hinv ev hen)
+
+/-- Every command the manager answers without panicking was enabled in the weak sense. -/
+theorem enabledW_of_ok (s s' : MState) (ev : Ev) (r : Reply) (h : mstep s ev = .ok s' r)
+    (hadd : ∀ a n, ev = .add a n → findPeer s a = none) : EnabledW s ev := by
+  cases ev with
+  | add a n => exact hadd a n rfl
+  | kill a => trivial
+  | choke a => cases hp : findPeer s a with
+    | none => simp [mstep, hp] at h
+    | some p => exact ⟨p, hp⟩
+  | unchoke a c => cases hp : findPeer s a with
+    | none => simp [mstep, hp] at h
+    | some p => exact ⟨p, hp⟩
+  | interested a => cases hp : findPeer s a with
+    | none => simp [mstep, hp] at h
+    | some p => exact ⟨p, hp⟩
+  | notInterested a c => cases hp : findPeer s a with
+    | none => simp [mstep, hp] at h
+    | some p => exact ⟨p, hp⟩
+  | bitfield a bits c => cases hp : findPeer s a with
+    | none => simp [mstep, hp] at h
+    | some p =>
+      refine ⟨p, hp, ?_⟩
+      simp only [mstep, hp] at h
+      split at h
+      · cases h
+      · rename_i hl; simpa using hl
+  | «have» a i c => cases hp : findPeer s a with
+    | none => simp [mstep, hp] at h
+    | some p =>
+      refine ⟨p, hp, ?_⟩
+      simp only [mstep, hp] at h
+      split at h
+      · cases h
+      · rename_i hl; omega
+  | pieceDone a c => cases hp : findPeer s a with
+    | none => simp [mstep, hp] at h
+    | some p =>
+      cases hpi : p.pieceIndex with
+      | none => simp [mstep, hp, hpi] at h
+      | some y => exact ⟨p, y, hp, hpi⟩
+  | pieceCancel a c => cases hp : findPeer s a with
+    | none => simp [mstep, hp] at h
+    | some p =>
+      cases hpi : p.pieceIndex with
+      | none => simp [mstep, hp, hpi] at h
+      | some y => exact ⟨p, y, hp, hpi⟩
+
+/-- **The invariant is kept by every answered command**, enabled in the sense of the property's quantifier or not. -/
+theorem inv_of_ok (s s' : MState) (hinv : Inv s) (ev : Ev) (r : Reply) (h : mstep s ev = .ok s' r)
+    (hadd : ∀ a n, ev = .add a n → findPeer s a = none) : Inv s' := by
+  obtain ⟨s'', r', h1, h2⟩ := step_inv_w s hinv ev (enabledW_of_ok s s' ev r h hadd)
+  rw [h1] at h; simp only [Out.ok.injEq] at h; rw [← h.1]; exact h2
 
 /-! ### The property, for every reachable state -/
 
